@@ -1461,6 +1461,24 @@ func ruleC18DirName(c *Checker) {
 				k, isC := constInt(bo.Y)
 				return isC && k == 0
 			})
+			// … or the same test written the other way round: IndexByte(v,'/') < 0, == -1
+			noSepT, _ := condEdges(fn, func(x ssa.Value) bool {
+				bo, ok := x.(*ssa.BinOp)
+				if !ok || (bo.Op != token.LSS && bo.Op != token.EQL) {
+					return false
+				}
+				cl, ok := bo.X.(*ssa.Call)
+				if !ok {
+					return false
+				}
+				o := calleeObj(cl)
+				if !(isFunc(o, "strings", "IndexByte") || isFunc(o, "strings", "Index") || isFunc(o, "strings", "IndexRune")) || canon(cl.Call.Args[0]) != canon(v) {
+					return false
+				}
+				k, isC := constInt(bo.Y)
+				return isC && ((bo.Op == token.LSS && k == 0) || (bo.Op == token.EQL && k == -1))
+			})
+			sepF = append(sepF, noSepT...)
 			c.check(guarded(mu.Block(), sepF), R, name, "directory name has no separator", pos, "past the no-'/' edge", "a manifest can name a nested path as package directory")
 		})
 	}
